@@ -34,7 +34,9 @@ def frow(p, q, i):
 
 FA = tuple(frow(p, q, i) for i, (p, q) in enumerate([(0, 0), (0, 1), (1, 0), (1, 1), (2, 0), (2, 1)]))
 FB = tuple(frow(p, q, i + 3) for i, (p, q) in enumerate([(0, 1), (1, 0), (2, 0), (0, 0)]))
-WSPEC = (("FA", "Item", FA), ("FB", "Item", FB))
+# a field that holds values of mixed types, among them values that are truthy/falsy but not equal to True/False
+FM = tuple((("p", i % 2), ("t", (7,)), ("ref", v)) for i, v in enumerate((None, "", (), 2, "ok", True, False, 0, 1, (0,))))
+WSPEC = (("FA", "Item", FA), ("FB", "Item", FB), ("FM", "Item", FM))
 VX = ("x", "let", "Item", "FA")
 VY = ("y", "let", "Item", "FB")
 
@@ -105,6 +107,12 @@ def cases(tier, inst):
                (("p", L(1)), ("s", L("a"))), (("q", L(0)), ("s", L("")))):
         for how in ("kw", "entity"):
             yield ("field", kw, how)
+    # boolean (and other falsy/truthy) constants as field constraints over a field of mixed-type values: a constraint is
+    # an equality, never a truth test
+    for c in (("lb", "True"), ("lb", "False"), L(None), L(0), L(1), L(""), L(())):
+        for kw in ((("ref", c),), (("p", L(0)), ("ref", c)), (("ref", c), ("p", L(1)))):
+            for how in ("kw", "entity", "pos_nodomain"):
+                yield ("fieldm", kw, how)
     # constructor arguments of inferred instances
     for args in (((("a", A(X, "p")), ("b", X))), (("a", A(X, "s")), ("b", A(X, "p")), ("c", X)),
                  (("a", X), ("b", L(0))), (("a", A(X, "flag")), ("b", X), ("c", L(""))),
@@ -136,6 +144,15 @@ def query_of(case):
             return ("Q", "an", "entity", term, (), ()), "query"
         return ("Q", "an", "entity", ("bound", "x", ("pform", "Item", "FA", (), ())),
                 tuple(("cmp", "eq", A(X, f), v) for f, v in case[1]), ()), "query"
+    if fam == "fieldm":
+        if case[2] == "kw":
+            return ("Q", "an", "entity", ("pform", "Item", "FM", (), case[1]), (), ()), "query"
+        if case[2] == "pos_nodomain":
+            # no domain: Item(ref=c) ranges over the registry (every Item of the world), restricted to FM by a condition
+            return ("Q", "an", "entity", ("bound", "x", ("pform", "Item", None, (), case[1])),
+                    (("in", A(X, "t"), L(((7,),))),), ()), "query"
+        return ("Q", "an", "entity", ("bound", "x", ("pform", "Item", "FM", (), ())),
+                tuple(("cmp", "eq", A(X, f), v) for f, v in case[1]), ()), "query"
     if fam == "ctor":
         return ("Q", "infer", "entity", ("new", "Made", (), case[1]), (case[2],) if case[2] else (), (VX,)), "rule"
     raise ValueError(case)
@@ -148,13 +165,15 @@ def run_case(case, inst):
     def body():
         world = build_world(WSPEC, inst)
         ref = Q.Ref(world, inst)
-        if fam in ("field", "ctor"):
+        if fam in ("field", "ctor", "fieldm"):
             try:
                 obj, b = Q.build(q, world, inst, mode=mode)
                 got = [(r,) for r in obj.evaluate()]
             except Exception as e:
                 got = exc_obs(e)
-            if fam == "field":
+            if fam == "fieldm":
+                exp = [(o,) for o in world["FM"] if all(getattr(o, f) == ref.value(v, {}) for f, v in case[1])]
+            elif fam == "field":
                 exp = [(o,) for o in world["FA"]
                        if all(getattr(o, f) == inst.v(v[1]) for f, v in case[1])]
             else:
@@ -176,7 +195,7 @@ def run_case(case, inst):
         return got, exp, total
 
     got, exp, total = run_isolated(body)
-    d = diff_rows(got, exp, count=fam in ("cond1", "cond2", "field", "ctor", "flat", "esel"))
+    d = diff_rows(got, exp, count=fam in ("cond1", "cond2", "field", "fieldm", "ctor", "flat", "esel"))
     res = {"ok": d is None, "nontrivial": len(exp) > 0 and (total is None or len(exp) < total) if fam != "cond1"
            else 0 < len(exp) < len(FA), "transitions": 1 + (0 if is_exc(got) else len(got)),
            "tags": [f"family={fam}"], "outcome": f"{fam}:{len(exp)}"}
